@@ -271,6 +271,14 @@ def gen_vhdx(thorough=False):
     yield 'vhdx metadata entry in the middle', vhdx(
         size=556, regions=[(bat, 2048 * KiB), (METAREGION, 320 * KiB),
                            (bat, 1024 * KiB)])
+    nil = uuid.UUID(int=0)
+    yield 'vhdx nil entry before the metadata entry', vhdx(
+        size=559, regions=[(bat, 1024 * KiB), (nil, 0),
+                           (METAREGION, 320 * KiB)])
+    yield 'vhdx nil entry first', vhdx(
+        size=560, regions=[(nil, 0), (METAREGION, 320 * KiB)])
+    yield 'vhdx nil metadata item before the size item', vhdx(
+        size=561, meta_entries=[(nil, 0, 0), (VDS_ITEM, 64 * KiB, 8)])
     yield 'vhdx size item first', vhdx(
         size=557, meta_entries=[(VDS_ITEM, 64 * KiB, 8),
                                 (item, 65536 + 4096, 8)])
@@ -305,14 +313,14 @@ def vmdk_descriptor(ctype='monolithicSparse', lines=None, extents=None):
 
 
 def vmdk(sectors=20480, ver=1, desc_sec=1, desc_num=2, gd=0, text=None,
-         sig=b'KDMV', footer=None, length=None, fill=b'\x00'):
+         sig=b'KDMV', footer=None, length=None, fill=b'\x00', rgd=0):
     text = vmdk_descriptor() if text is None else text
     body = text.encode('latin-1') if isinstance(text, str) else text
     dlen = min(desc_num * 512, (1 << 20) - 1)
     length = length or max(512 + dlen + 1024, 4096)
     img = bytearray(fill * length)[:length]
     img[0:64] = struct.pack('<4sIIQQQQIQQ', sig, ver, 3, sectors, 128,
-                            desc_sec, desc_num, 512, 0, gd)
+                            desc_sec, desc_num, 512, rgd, gd)
     img[64:512] = b'\x00' * 448
     img[512:512 + dlen] = (body + b'\x00' * dlen)[:dlen]
     if footer is not None:
@@ -366,6 +374,18 @@ def gen_vmdk(thorough=False):
             yield 'vmdk %d-sector descriptor ending in a %s' % (dn, what), \
                 vmdk(text=text, desc_num=dn,
                      length=512 + dn * 512 + 2048)
+    # text after the first NUL is not part of the descriptor
+    d = vmdk_descriptor()
+    cut = d.index('createType')
+    for label, text in (
+            ('createType and extent only after a NUL',
+             d[:cut].encode() + b'\x00' + d[cut:].encode()),
+            ('extent only after a NUL',
+             d.replace('RW 20480 SPARSE "disk.vmdk"\n',
+                       '# c\x00\nRW 20480 SPARSE "disk.vmdk"\n').encode()),
+            ('path extent only after a NUL',
+             (d + '\x00\nRW 1 FLAT "/etc/passwd" 0\n').encode())):
+        yield 'vmdk descriptor with %s' % label, vmdk(text=text)
     # a descriptor that fills its sectors exactly (no NUL padding)
     base = vmdk_descriptor()
     exact = base + '#' * (1024 - len(base) - 1) + '\n'
